@@ -1,4 +1,5 @@
 """Per-property checks. Each returns the process exit code (0 / 1)."""
+import re
 import os, sys, json, time, random, hashlib, shutil, subprocess
 import vlib, gen
 from vlib import Report, RunDir, run_many, first_problem, describe_problem, shrink
@@ -251,9 +252,91 @@ def corpus_opts(label):
     return CORPUS_OPTS.get(label, dict(pagesize=1024, num_pages=32))
 
 
+
+# ----------------------------------------------------------------------------------------------
+# model-side search: the extracted engine model alone (validated page-for-page against the library on every commit
+# the histories above make) against the reference, over exhaustive shape families, ~1000 cases/s/core. A hit is a
+# candidate only: it is rebuilt as a history (gen.g3_case) and run on the library.
+# ----------------------------------------------------------------------------------------------
+def msearch_jobs(tier):
+    jobs = []
+    def subsets(P, n, kl, subs, shards):
+        step = (1 << n) // shards
+        for i in range(shards):
+            jobs.append(["subsets", str(P), str(n), str(kl), subs, str(i * step), str((i + 1) * step if i < shards - 1 else (1 << n))])
+    def ranges(P, n, kl, subs):
+        jobs.append(["ranges", str(P), str(n), str(kl), subs])
+    ranges(1024, 24, 200, "3,6,11,17")
+    ranges(1024, 30, 300, "4,15,22")
+    ranges(1024, 40, 40, "4,15,22")
+    ranges(4096, 24, 900, "3,6,11,17")
+    subsets(1024, 12, 200, "2,5,9", 12)
+    if tier == "thorough":
+        ranges(1024, 60, 120, "1,7,20,33,50")
+        ranges(1024, 48, 300, "0,5,24,47")
+        ranges(4096, 40, 1300, "2,9,30")
+        ranges(1024, 36, 200, "-")
+        subsets(1024, 16, 200, "2,5,9,14", 64)
+        subsets(1024, 14, 300, "0,6,13", 32)
+        subsets(4096, 12, 1300, "2,5,9", 8)
+        subsets(1024, 12, 200, "-", 8)
+    return jobs
+
+
+def msearch_history(descr):
+    """rebuild the history of a HIT line printed by `monitor msearch`"""
+    kv = dict(x.split("=", 1) for x in descr.split()[1:])
+    n, kl = int(kv["n"]), int(kv["kl"])
+    subs = set() if kv["subs"] == "-" else set(int(x) for x in kv["subs"].split(","))
+    touch = None if kv["touch"] == "None" else int(kv["touch"])
+    if descr.startswith("ranges"):
+        lo, hi = kv["del"].strip("[)").split(",")
+        return gen.g3_case(n, kl, subs, range(int(lo), int(hi)), touch, None, touch_all=(kv["all"] == "1"))
+    m = int(kv["mask"], 16)
+    ins = None if kv["ins"] == "none" else kv["ins"]
+    return gen.g3_case(n, kl, subs, [i for i in range(n) if (m >> i) & 1], touch, ins)
+
+
+def model_search(prop):
+    def run(rep, rd, b):
+        import concurrent.futures
+        jobs = msearch_jobs(rep.tier)
+        total, hits, failed = 0, [], 0
+        def one(j):
+            return j, vlib.sh([vlib.MONITOR, "msearch"] + j, timeout=3000)
+        with concurrent.futures.ThreadPoolExecutor(16) as ex:
+            for j, (rc, out) in ex.map(one, jobs):
+                m = re.search(r"done cases=(\d+) hits=(\d+)", out)
+                if rc != 0 or not m:
+                    rep.violation("model-side search did not run: msearch %s: %s" % (" ".join(j), out[-300:]),
+                                  dict(kind="broken-obligation", property=prop, detail="monitor msearch " + " ".join(j), output=out[-1000:]), no_input=True)
+                    failed += 1
+                    continue
+                total += int(m.group(1))
+                for ln in out.split("\n"):
+                    if ln.startswith("HIT "):
+                        hits.append((int(j[1]), ln[4:]))
+        rep.cov["model_search_cases"] = total
+        rep.cov["model_search_hits"] = len(hits)
+        rep.cov["model_search_families"] = [" ".join(j[:5]) for j in jobs if j[0] == "ranges" or j[5] == "0"]
+        for P, hit in hits[:3]:
+            descr, why = hit.split(" :: ", 1)
+            text = msearch_history(descr)
+            o = dict(pagesize=P, num_pages=32)
+            n0 = len(rep.violations)
+            failed += history_oracle(rep, [("msearch " + descr, text)], lambda l: o, rd, profiles=("debug",), on_result=snap_oracle)
+            if len(rep.violations) == n0:
+                # the library is fine on it: the engine model is wrong there (and was not compared on that shape before)
+                rep.violation("engine model disagrees with the reference on '%s' (%s) but the library does not fail on it" % (descr, why),
+                              dict(kind="broken-obligation", property=prop, detail="model-side search hit not reproduced on the library",
+                                   case=descr, model_says=why, history=text.split("\n"), opts=o), no_input=True)
+                failed += 1
+        return failed
+    return run
+
 def check_c01(tier, seed):
     return history_property(
-        "C01", tier, seed, cases_c01(tier, seed), opts_c01,
+        "C01", tier, seed, cases_c01(tier, seed), opts_c01, extra=model_search("C01"), rule=
         "families G1 (uniform ops, depth<=3), G1-long-keys, G2 (fill + contiguous range deletes), "
         "G3 (shape enumeration, 200-byte keys @1024), G4 (nested bucket deletes), G5 (overflow), Gmis + corpus; "
         "every call compared with the extracted reference; after every commit the file is decoded by the Gallina "
